@@ -309,6 +309,15 @@ pub fn c07_payload(p: &[u8], out: &mut Vec<Viol>, counts: &mut Counts) {
         }
         Err(pn) => bad("C05 panic in encode_streaming", pn),
     }
+    // `Encoder::new` directly (what `encode_streaming` wraps)
+    match guarded(|| sml_rs::transport::Encoder::new(p.iter().copied()).take(lim).collect::<Vec<u8>>()) {
+        Ok(v) => {
+            if v != f {
+                bad("C07 Encoder::new(..) differs from the Transport-v1 frame", format!("expected {} got {}", hx(&f), hx(&v)));
+            }
+        }
+        Err(pn) => bad("C05 panic in Encoder::new / next", pn),
+    }
     if let Some((at, lo, hi, left)) = hint_bad {
         bad("C07 encode_streaming: size_hint does not bracket the bytes still to come", format!("after {} bytes: hint ({}, {:?}), {} bytes left", at, lo, hi, left));
     }
